@@ -109,13 +109,17 @@ def run(ctx, eng):
             pass
     src_ok = False
     for p in cm.normal_paths(paths):
-        conds = [e.cond for e in p.events if e.kind == 'assume']
-        shows = [cm.show0(c) for c in conds]
-        has_open = any(s.endswith('.open') and 'each(' in s
+        shows = cm.filter_conditions(p)
+        has_open = any(s.endswith('.open') and ('each(' in s or 'lv(' in s
+                                                or '<' in s)
                        for s in shows)
         has_par = any('% 2) == remainder)' in s for s in shows)
-        if has_open and has_par and p.value is not None and \
-                cm.aff_is(p.value, {'phi(count)': 1}, 1):
+        v = p.value
+        counted = v is not None and (
+            cm.aff_is(v, {'phi(count)': 1}, 1) or          # count += 1
+            (v[0] == 'call' and v[1] == 'sum' and
+             [c[1] for c in cm.comp_terms(v)] == [T.C(1)]))  # sum(1 for ..)
+        if has_open and has_par and counted:
             src_ok = True
     ctx.ob('FLOW.count', fi.qual, 'counts open streams of the parity',
            src_ok, 'count += 1 iff stream.open and stream_id %% 2 == '
